@@ -768,9 +768,12 @@ func (w *wworld) racingUpdates(x *wdt) {
 	if second {
 		want = 2
 	}
-	deadline := time.Now().Add(8 * time.Second)
+	deadline := w.postDeadline()
 	for time.Now().Before(deadline) && w.e.fm.CountAfter(cmd0, "update", x.owner.col) < want {
 		time.Sleep(200 * time.Microsecond)
+	}
+	if w.e.fm.CountAfter(cmd0, "update", x.owner.col) < want {
+		w.c.Count("post-commit-wait-timeout")
 	}
 	w.settle(w.base)
 	w.holdMode, w.holdOn = 0, false
@@ -958,9 +961,18 @@ func (w *wworld) settle(base int) {
 	}
 }
 
+// postDeadline: how long to wait for post-commit work.  Generous, so that a loaded machine causes no false alarm; but
+// when the work has failed to come three times in this run the tree is broken and the run is not spent waiting
+func (w *wworld) postDeadline() time.Time {
+	if w.c.Res.Distribution["post-commit-wait-timeout"] >= 3 {
+		return time.Now().Add(500 * time.Millisecond)
+	}
+	return time.Now().Add(10 * time.Second)
+}
+
 // waitPost waits for the goroutine finalize() starts after a committed push: publish, then snapshot update
 func (w *wworld) waitPost(col string, pubsBefore int, cmdBefore int) {
-	deadline := time.Now().Add(10 * time.Second)
+	deadline := w.postDeadline()
 	for time.Now().Before(deadline) {
 		if len(w.e.mq.Published()) > pubsBefore && w.e.fm.SawAfter(cmdBefore, "update", col) {
 			return
@@ -1566,16 +1578,22 @@ func (w *wworld) raw(x *wdt) {
 	if !isErr && len(pack.Operations) > 0 {
 		// stored operations are followed by the handler's goroutine (publish, snapshot update): wait for it, however
 		// loaded the machine is; a request that stored nothing is followed by nothing
-		deadline := time.Now().Add(10 * time.Second)
+		deadline := w.postDeadline()
+		done := false
 		for time.Now().Before(deadline) {
 			if len(w.e.mq.Published()) > pubsBefore && w.e.fm.SawAfter(cmdBefore, "update", col) {
+				done = true
 				break
 			}
 			if len(w.dbDigest().ops) == len(before.ops) {
 				time.Sleep(2 * time.Millisecond)
+				done = true
 				break
 			}
 			time.Sleep(200 * time.Microsecond)
+		}
+		if !done {
+			w.c.Count("post-commit-wait-timeout")
 		}
 	}
 	w.settle(w.base)
@@ -1605,8 +1623,11 @@ func (w *wworld) raw(x *wdt) {
 			}
 			w.c.Count("raw-refusal-applied")
 		}
+	} else if what != "unchanged copy" {
+		w.dirty = true // an accepted damaged request: whether the clients still converge is not promised
 	} else {
-		w.dirty = true // accepted: acts like a request whose response was lost
+		// an accepted unchanged copy acts like a request whose response was lost: retries must repair it (C07)
+		w.c.Count("raw-unchanged-copy-accepted")
 	}
 }
 
